@@ -21,6 +21,15 @@ def gen_case(rng):
     else:
         mg, xg = rng.choice([(1, 3), (2, 4)])
         case = {'spec': rulesets.gen_spec(rng, with_m=False, n_base=rng.randint(1, 3), max_len=3, min_groups=mg, max_groups=xg, max_per_group=3), 'hseed': rng.getrandbits(32)}
+    if rng.random() < 0.15:
+        # four to seven base structures, most of them with exactly the same probability and a less probable one listed between them, one or two values per
+        # variable: every N from 1 on is tried, also N below the number of base structures
+        nb = rng.randint(4, 7)
+        spec = rulesets.gen_spec(rng, with_m=False, n_base=nb, max_len=2, min_groups=1, max_groups=2, max_per_group=2, pool='equal', dup_base=False)
+        k = rng.randrange(1, len(spec['base']) - 1)
+        tot = len(spec['base']) - 0.5
+        spec['base'] = [[s_, (0.5 if i == k else 1.0) / tot] for i, (s_, p_) in enumerate(spec['base'])]
+        case = {'spec': spec, 'hseed': rng.getrandbits(32), 'tied_bases': True}
     if case['spec'].get('omen') and rng.random() < 0.6:
         # omen_keyspace.txt is informational (status report): rulesets of older trainers / hand-made ones carry numbers that are too small or too large
         case['spec']['omen']['keyspace'] = [[l, max(0, k + rng.choice([-3, -1, 0, 1, 5, -k, k]))] for l, k in case['spec']['omen']['keyspace']]
